@@ -566,13 +566,16 @@ def const_guards(repo: Repo, chk: Check) -> None:
                         okn = False
             chk.result(okn, "C12.const-guards", f"{g2.key}:bails-on-none", tc[0].where(), "mutations after transform_constant require a non-None result",
                        "the pattern keeps rewriting although transform_constant gave up (returned None)")
-        if extra == "all-users-are-casts":
-            ok = has_forall(first, ["isinstance($v.operation, $cls)"], domain_ok=lambda d: norm.contains(d, T("$c.memref.uses")) or norm.contains(d, T("$c.uses"))) is not None and any(
+        if cname in ("ApplyLayoutCastArithConstant", "ApplyLayoutCastMemrefAlloc", "ApplyLayoutCastMemrefGlobal"):
+            # re-typing the producer changes the type every direct user sees; anything but a cast keeps addressing the data with the layout it was written for
+            what = {"ApplyLayoutCastArithConstant": "a constant", "ApplyLayoutCastMemrefAlloc": "an alloc", "ApplyLayoutCastMemrefGlobal": "a get_global"}[cname]
+            ok = has_forall(first, ["isinstance($v.operation, $cls)"], domain_ok=lambda d: norm.contains(d, T("$c.memref.uses")) or norm.contains(d, T("$c.result.uses")) or norm.contains(d, T("$c.uses"))) is not None and any(
                 "LayoutCast" in t for t in first.fact_texts)
             if not ok:
                 ok = any(t.startswith("all((isinstance(") and "LayoutCast" in t and ".operation" in t for t in first.fact_texts)
-            chk.result(ok, "C12.const-guards", f"{g2.key}:{extra}", first.where(), "an alloc is re-typed only if every user is a cast",
-                       "an alloc is re-typed although it has users that are not casts (they keep addressing it with the old layout)", first.fact_texts)
+            chk.result(ok, "C12.const-guards", f"{g2.key}:all-users-are-casts", first.where(), f"{what} is re-typed only if every user is a cast",
+                       f"{what} is re-typed / re-laid-out although it has users that are not casts: a subview or kernel reading it directly keeps its row-major "
+                       "(strided) view of data that is now tiled", first.fact_texts)
         if extra == "no-other-reference":
             ok = any("GetGlobalOp" in t and "name_" in t and t.startswith("all((not") for t in first.fact_texts)
             chk.result(ok, "C12.const-guards", f"{g2.key}:{extra}", first.where(), "a global is replaced only if no other get_global refers to its symbol",
